@@ -147,6 +147,15 @@ func (p *pkgInfo) assignText(fn, name string) string {
 	return res
 }
 
+// firstStmt: source text of the first statement of fn's body (a handler that is a bare `return …, err`).
+func (p *pkgInfo) firstStmt(fn string) string {
+	fd := p.fn(fn)
+	if len(fd.Body.List) == 0 {
+		fail("func %s in %s has an empty body", fn, p.dir)
+	}
+	return oneLine(fd.Body.List[0])
+}
+
 func genAuth(outDir string) {
 	l := newLean("Auth")
 	who := []string{"Sender", "sender", "Owner", "owner", "Admin", "isGovModuleSender", "updateInitiator"}
@@ -201,6 +210,13 @@ func genAuth(outDir string) {
 	l.strDef("call_lockup_ExtendLockup_owner", lk.callText("msgServer.ExtendLockup", "AccAddressFromBech32"))
 	l.strDef("call_lockup_SetRewardReceiverAddress", lk.callText("msgServer.SetRewardReceiverAddress", "SetLockRewardReceiverAddress"))
 	l.strDef("call_lockup_SetRewardReceiverAddress_owner", lk.callText("msgServer.SetRewardReceiverAddress", "AccAddressFromBech32"))
+	// BeginUnlockingAll names no lock: it walks the not-unlocking locks of the address decoded from msg.Owner
+	l.strDef("call_lockup_BeginUnlockingAll", lk.callText("msgServer.BeginUnlockingAll", "BeginUnlockAllNotUnlockings"))
+	l.strDef("call_lockup_BeginUnlockingAll_owner", lk.callText("msgServer.BeginUnlockingAll", "AccAddressFromBech32"))
+	l.strDef("call_lockup_k_BeginUnlockAllNotUnlockings", lk.callText("Keeper.BeginUnlockAllNotUnlockings", "beginUnlockFromIterator"))
+	l.strDef("call_lockup_k_beginUnlockFromIterator", lk.callText("Keeper.beginUnlockFromIterator", "BeginUnlock"))
+	l.strDef("src_lockup_BeginUnlockingAll", lk.bodyText("msgServer.BeginUnlockingAll"))
+	l.strDef("src_lockup_k_beginUnlockFromIterator", lk.bodyText("Keeper.beginUnlockFromIterator"))
 	// --- concentrated liquidity
 	cl := loadPkg(filepath.Join(repo, "x/concentrated-liquidity"))
 	emit(cl, []g{
@@ -246,5 +262,51 @@ func genAuth(outDir string) {
 	for _, f := range []string{"validateLockForSFDelegate", "SuperfluidDelegate", "undelegateCommon", "unbondLock", "SuperfluidUndelegateAndUnbondLock", "SuperfluidUndelegate", "SuperfluidUnbondLock"} {
 		l.strDef("src_superfluid_k_"+f, sf.bodyText("Keeper."+f))
 	}
+	// UnbondConvertAndStake: undelegateCommon (owner check for superfluid-BONDED locks only) precedes
+	// convertLockToStake, whose own owner check (guards_superfluid_k_convertLockToStake, above) precedes the
+	// force-unlock / pool exit
+	l.strList("order_superfluid_k_UnbondConvertAndStake", sf.callOrder("Keeper.UnbondConvertAndStake", []string{"AccAddressFromBech32", "getMigrationType", "undelegateCommon", "convertLockToStake", "convertUnlockedToStake"}))
+	l.strList("guards_superfluid_k_UnbondConvertAndStake", sf.guards("Keeper.UnbondConvertAndStake", "", []string{"migrationType"}))
+	l.strList("order_superfluid_k_convertLockToStake", sf.callOrder("Keeper.convertLockToStake", []string{"GetLockByID", "forceUnlockAndExitBalancerPool", "convertGammSharesToOsmoAndStake"}))
+	l.strDef("call_superfluid_k_UnbondConvertAndStake_convertLockToStake", sf.callText("Keeper.UnbondConvertAndStake", "convertLockToStake"))
+	l.strDef("call_superfluid_k_UnbondConvertAndStake_undelegateCommon", sf.callText("Keeper.UnbondConvertAndStake", "undelegateCommon"))
+	l.strDef("call_superfluid_k_UnbondConvertAndStake_sender", sf.callText("Keeper.UnbondConvertAndStake", "AccAddressFromBech32"))
+	// AddToConcentratedLiquiditySuperfluidPosition: lock owner = position owner = sender, before anything is touched
+	emit(sf, []g{
+		{"superfluid_k_addToConcentratedLiquiditySuperfluidPosition", "Keeper.addToConcentratedLiquiditySuperfluidPosition", "SuperfluidUndelegateToConcentratedPosition", who},
+		{"superfluid_k_validateGammLockForSuperfluidStaking", "Keeper.validateGammLockForSuperfluidStaking", "", who},
+	})
+	l.strDef("call_superfluid_AddToConcentratedLiquiditySuperfluidPosition", sf.callText("msgServer.AddToConcentratedLiquiditySuperfluidPosition", "addToConcentratedLiquiditySuperfluidPosition"))
+	l.strDef("call_superfluid_AddToConcentratedLiquiditySuperfluidPosition_sender", sf.callText("msgServer.AddToConcentratedLiquiditySuperfluidPosition", "AccAddressFromBech32"))
+	l.strDef("call_superfluid_k_SuperfluidUndelegateToConcentratedPosition", sf.callText("Keeper.SuperfluidUndelegateToConcentratedPosition", "undelegateCommon"))
+	// the migration message is disabled: its handler is a bare error return
+	l.strDef("stmt_superfluid_UnlockAndMigrateSharesToFullRangeConcentratedPosition", sf.firstStmt("msgServer.UnlockAndMigrateSharesToFullRangeConcentratedPosition"))
+	// UnPoolWhitelistedPool names no lock: it walks the sender's own locks of the pool's share denom
+	l.strDef("call_superfluid_UnPoolWhitelistedPool_locks", sf.callText("msgServer.UnPoolWhitelistedPool", "GetAccountLockedLongerDurationDenom"))
+	l.strDef("call_superfluid_UnPoolWhitelistedPool_sender", sf.callText("msgServer.UnPoolWhitelistedPool", "AccAddressFromBech32"))
+	l.strDef("call_superfluid_UnPoolWhitelistedPool_unpool", sf.callText("msgServer.UnPoolWhitelistedPool", "UnpoolAllowedPools"))
+	l.strList("order_superfluid_k_UnpoolAllowedPools", sf.callOrder("Keeper.UnpoolAllowedPools", []string{"checkUnpoolWhitelisted", "validateGammLockForSuperfluidStaking", "unbondSuperfluidIfExists", "ForceUnlock", "ExitPool"}))
+	for _, f := range []string{"UnbondConvertAndStake", "convertLockToStake", "addToConcentratedLiquiditySuperfluidPosition", "getMigrationType"} {
+		l.strDef("src_superfluid_k_"+f, sf.bodyText("Keeper."+f))
+	}
+	// --- gamm: the scaling factors of a stableswap pool belong to its controller
+	gk := loadPkg(filepath.Join(repo, "x/gamm/keeper"))
+	ss := loadPkg(filepath.Join(repo, "x/gamm/pool-models/stableswap"))
+	emit(ss, []g{{"gamm_stableswap_SetScalingFactors", "Pool.SetScalingFactors", "", who}})
+	l.strDef("call_gamm_StableSwapAdjustScalingFactors", gk.callText("msgServer.StableSwapAdjustScalingFactors", "setStableSwapScalingFactors"))
+	l.strDef("call_gamm_k_setStableSwapScalingFactors", gk.callText("Keeper.setStableSwapScalingFactors", "SetScalingFactors"))
+	l.strList("order_gamm_k_setStableSwapScalingFactors", gk.callOrder("Keeper.setStableSwapScalingFactors", []string{"GetPoolAndPoke", "SetScalingFactors", "setPool"}))
+	// --- valset-pref: DelegateBondedTokens breaks a lock named by id
+	vp := loadPkg(filepath.Join(repo, "x/valset-pref"))
+	emit(vp, []g{
+		{"valsetpref_k_validateLockForForceUnlock", "Keeper.validateLockForForceUnlock", "", append([]string{"IsUnlocking"}, who...)},
+	})
+	l.strList("order_valsetpref_k_ForceUnlockBondedOsmo", vp.callOrder("Keeper.ForceUnlockBondedOsmo", []string{"validateLockForForceUnlock", "GetSyntheticLockupByUnderlyingLockId", "ForceUnlock"}))
+	l.strList("order_valsetpref_DelegateBondedTokens", vp.callOrder("msgServer.DelegateBondedTokens", []string{"GetDelegationPreferences", "ForceUnlockBondedOsmo", "DelegateToValidatorSet"}))
+	l.strDef("call_valsetpref_DelegateBondedTokens", vp.callText("msgServer.DelegateBondedTokens", "ForceUnlockBondedOsmo"))
+	l.strDef("call_valsetpref_DelegateBondedTokens_prefs", vp.callText("msgServer.DelegateBondedTokens", "GetDelegationPreferences"))
+	l.strDef("call_valsetpref_k_ForceUnlockBondedOsmo", vp.callText("Keeper.ForceUnlockBondedOsmo", "validateLockForForceUnlock"))
+	l.strDef("src_valsetpref_DelegateBondedTokens", vp.bodyText("msgServer.DelegateBondedTokens"))
+	l.strDef("src_valsetpref_k_ForceUnlockBondedOsmo", vp.bodyText("Keeper.ForceUnlockBondedOsmo"))
 	l.write(outDir)
 }
